@@ -4,6 +4,7 @@ from mir import op_place, place_str
 import pool
 
 META = {
+    "thorough_extra": ["mocks", "client-only"],
     "level": "proof",
     "explanation": "Inductive invariant: every connection stored under token t was dialled from request parts whose key maps to t. Premises, each decided "
                    "statically: (C06.1) UriKey::try_from(&Parts) builds the key from parts.uri.scheme() and parts.uri.authority() only, and its Eq/Hash are "
@@ -313,5 +314,5 @@ RULES = [
     ("C06.3", C06_3, ["default"]),
     ("C06.4", C06_4, ["default"]),
     ("C06.5", C06_5, ["default"]),
-    ("C06.6", pool.P2, ["default"]),
+    ("C06.6", pool.P2_aspects("callers", "token-guard", "conn", "token"), ["default"]),
 ]
